@@ -155,10 +155,11 @@ def gen_sm(ctx, rng):
         d["wrap"] = rng.random() < 0.3           # handed over as a UserFunction object instead of a plain callable
         data.append(d)
     static = rng.random() < 0.45
+    n = rng.choice([1, 2, 3, 5])
+    data = tabulate(rng, data, n)
     interval = None
     if static and rng.random() < 0.3:
         interval = rng.choice([1, 2, 3])
-    n = rng.choice([1, 2, 3, 5])
     calls = rng.choice([1, 2, 3]) if interval is None else rng.choice([3, 4, 5])
     sets = [gen_rows(rng, n, dim_of(space)) for _ in range(4 + len(data) + calls)]
     # residual: named arguments in random order
@@ -231,6 +232,7 @@ def gen_int(ctx, rng):
     data = [gen_fn(rng, dn, space, rng.randint(1, 2)) for dn in rng.sample(DATA, rng.choice([0, 1, 1]))]
     for d in data:
         d["wrap"] = rng.random() < 0.3
+    data = tabulate(rng, data, n, p=0.35)
     integral = [[o + "_integral", m * d] for o, d in out_space] + [[v + "_integral", m * d] for v, d in ivars]
     avail = list(space) + out_space + [[p[0], len(p[1])] for p in param] + [[d["name"], len(d["body"])] for d in data] + integral
     resid = gen_fn(rng, "resid", avail, rng.randint(1, 2), deg=2)
@@ -240,6 +242,10 @@ def gen_int(ctx, rng):
             resid["params"].insert(0, nm)
         # e.g. u - mean_j u_integral_j: a sum over the integral points
         resid["body"][0] = ["-", resid["body"][0], pe_to_json(cc.pe_sum([('*', ('c', F(1, m)), ('v', nm, j)) for j in range(dm)]))]
+    for d in data:
+        if d.get("form") == "table" and d["name"] not in resid["params"]:
+            resid["params"].insert(0, d["name"])          # a table entry that the residual does not read cannot go wrong
+            resid["body"][0] = ["+", resid["body"][0], ["v", d["name"], 0]]
     varying = [a[0] for a in list(space) + out_space]
     if not set(resid["params"]) & set(varying):
         resid["params"].insert(0, rng.choice(varying))
@@ -316,7 +322,7 @@ def lines_int(case, res):
         pre = pre_tok(case["static"], None, p["rows"])
         lines.append(" ".join(["int", tok_space(p["space"]), tok_space(q_["space"]), tok_table(p["rows"]), tok_table(q_["rows"]),
                                net_tok(case["net"]), resid_ufun_tok(case),
-                               lst(case["data"], lambda d: d["name"] + " " + fn_tok(d)), pre,
+                               lst(case["data"], data_tok), pre,
                                tok_named([(n, [F(v) for v in vs]) for n, vs in case["param"]]), case["err"], case["red"]]))
     return lines
 
@@ -324,6 +330,8 @@ def lines_int(case, res):
 def judge_int(rep, case, res, replies):
     rep.count("int:" + ("static" if case["static"] else "non-static") + ("+static-integral-sampler" if case["istatic"] else ""))
     rep.count(f"int:integral-variables={len(case['ispace'])}-of-{len(case['space'])}")
+    for d in case["data"]:
+        rep.count("int:data=" + (d.get("form") if d.get("form") in ("table", "const") else "callable") + (":static" if case["static"] else ":non-static"))
     count_shapes(rep, [case["resid"]] + case["data"])
     count_startup(rep, case)
     if res["errors"]:
@@ -364,7 +372,7 @@ def judge_int(rep, case, res, replies):
             exp[nm + "_integral"] = [[pe_frac(b, dict(e, **ie)) for ie in ienvs for b in body[kk:kk + d]] for e in envs]
             kk += d
         for d in case["data"]:
-            exp[d["name"]] = [eval_fn_spec(d, e) for e in envs]
+            exp[d["name"]] = data_expected(d, envs)
         for nm, vs in case["param"]:
             exp[nm] = [[F(v) for v in vs] for _ in envs]
         for nm, vs in case["resid"]["defaults"]:
@@ -611,6 +619,10 @@ def build_fn(C, spec, obs_list, ders=(), out_space=None, in_space=None, record_o
                     for n, v in defaults if not (st["kind"] == "partial" and n == st["name"])]
     if spec.get("form") == "const":
         fn = torch.tensor([[float(F(b[1])) for b in spec["body"]]], dtype=torch.float64)
+    elif spec.get("form") == "table":
+        fn = torch.tensor([[float(F(v)) for v in r] for r in spec["rows"]], dtype=torch.float64)
+    elif spec.get("form") == "number":
+        fn = float(F(spec["body"][0][1]))
     else:
         fn = mk_user_fn(spec["name"], spec["params"], defaults, impl, form=spec.get("form", "def"), kwonly=spec.get("kwonly", 0))
     if spec.get("wrap") or st:
@@ -767,6 +779,43 @@ def fn_tok(d):
                          body=[pe_from_json(b) for b in d["body"]]))
 
 
+def data_tok(d):
+    if d.get("form") == "table":
+        return f"{d['name']} tab {tok_table(prow(d['rows']))}"
+    return f"{d['name']} fn {fn_tok(d)}"
+
+
+def data_expected(d, envs, period=None):
+    """what a data-function entry is worth at every row: a callable by name on the row's coordinates, a table its own
+    row (`period` rows per block for tensors that are tiled over input functions)"""
+    if d.get("form") == "table":
+        rows = prow(d["rows"])
+        return [rows[i % len(rows)] for i in range(len(envs))]
+    return [eval_fn_spec(d, e) for e in envs]
+
+
+def gen_table(rng, name, n, outdim):
+    """a data 'function' that is a TABLE: a tensor with one row of values per sampled point"""
+    return dict(name=name, params=[], defaults=[], body=[["c", "0"]] * outdim, rows=gen_rows(rng, n, outdim), form="table", kwonly=0,
+                wrap=rng.random() < 0.3)
+
+
+def tabulate(rng, data, n, p=0.15):
+    """replace some data functions by tables of n rows (every condition class x static / non-static sampler)"""
+    out = []
+    for d in data:
+        r = rng.random()
+        if d.get("form") == "const" or r >= p + 0.05:
+            out.append(d)
+        elif r < p:
+            out.append(gen_table(rng, d["name"], n, len(d["body"])))
+        else:
+            # a plain Python number as data "function"
+            out.append(dict(name=d["name"], params=[], defaults=[], body=[pe_to_json(("c", cc.dy(rng)))], form="number",
+                            kwonly=0, wrap=False))
+    return out
+
+
 def net_tok(net):
     return tok_net({"in": net["in"], "out": net["out"], "body": [pe_from_json(b) for b in net["body"]]})
 
@@ -784,13 +833,13 @@ def lines_sm(case, res):
         pre = pre_tok(case["static"], case["interval"], p["rows"])
         if case["cls"] == "aw":
             lines.append(" ".join(["aw", tok_space(p["space"]), tok_table(p["rows"]), net_tok(case["net"]), resid_ufun_tok(case),
-                                   lst(case["data"], lambda d: d["name"] + " " + fn_tok(d)), pre,
+                                   lst(case["data"], data_tok), pre,
                                    tok_named([(n, [F(v) for v in vs]) for n, vs in case["param"]]), case["err"],
                                    cc.tok_vec([F(v) for v in case["weights"]])]))
             continue
         net = "0" if case["cls"] == "hpm" else "1 " + net_tok(case["net"])
         lines.append(" ".join(["sm", tok_space(p["space"]), tok_table(p["rows"]), net, resid_ufun_tok(case),
-                               lst(case["data"], lambda d: d["name"] + " " + fn_tok(d)), pre,
+                               lst(case["data"], data_tok), pre,
                                tok_named([(n, [F(v) for v in vs]) for n, vs in case["param"]]),
                                case["err"], case["red"]]))
     return lines
@@ -891,7 +940,7 @@ def expected_args_sm(case, p):
     for n, vs in case["param"]:
         exp[n] = [[F(v) for v in vs] for _ in rows]
     for d in case["data"]:
-        exp[d["name"]] = [eval_fn_spec(d, e) for e in envs]
+        exp[d["name"]] = data_expected(d, envs)
     if case["cls"] != "hpm":
         net = case["net"]
         body = [pe_from_json(b) for b in net["body"]]
@@ -931,6 +980,8 @@ def count_shapes(rep, fns):
         nd = len(f.get("defaults", []))
         rep.count(f"fn:declared-defaults={min(nd, 3)}{'+' if nd > 3 else ''}")
         rep.count("fn:form=" + ("kwonly" if f.get("kwonly") else f.get("form", "def")))
+        if f.get("form") in ("table", "const", "number"):
+            rep.count("fn:non-callable-entry:" + f["form"])
         if f.get("wrap"):
             rep.count("fn:handed-over-as-UserFunction")
         if f.get("state"):
@@ -1206,6 +1257,7 @@ def gen_per(ctx, rng):
             make_defaulted(rng, d, pv)
         d["wrap"] = rng.random() < 0.4           # the SAME UserFunction object serves the left and the right side
     n = rng.choice([1, 2, 3, 4]) if bspace else 1
+    data = tabulate(rng, data, n)
     static = bool(bspace) and rng.random() < 0.5
     calls = rng.choice([1, 2])
     sets = [gen_rows(rng, n, dim_of(bspace)) for _ in range(6)] if bspace else []
@@ -1340,7 +1392,7 @@ def lines_per(case, res):
         lines.append(" ".join(["per", tok_space(psp), tok_space(case["bspace"]),
                                lst(rows, lambda t: " ".join(cc.tok_vec(v) for v in t)),
                                net_tok(case["net"]), resid_ufun_tok(case),
-                               lst(case["data"], lambda d: d["name"] + " " + fn_tok(d)), pl, pr,
+                               lst(case["data"], data_tok), pl, pr,
                                tok_named([(n, [F(v) for v in vs]) for n, vs in case["param"]]), case["err"], case["red"]]))
     return lines
 
@@ -1361,7 +1413,7 @@ def expected_args_per(case, rows):
             exp[n + side] = [[pe_frac(b, e) for b in body[k:k + d]] for e in envs]
             k += d
         for d in case["data"]:
-            exp[d["name"] + side] = [eval_fn_spec(d, e) for e in envs]
+            exp[d["name"] + side] = data_expected(d, envs)
     for n, d in case["bspace"]:
         exp[n] = [named_row(case["bspace"], t[2])[n] for t in rows]
     for n, vs in case["param"]:
@@ -1465,6 +1517,7 @@ def gen_don(ctx, rng):
         data = [gen_fn(rng, dn, xspace, rng.randint(1, 2)) for dn in rng.sample(["g"], rng.choice([0, 1]))]
         for d in data:
             d["wrap"] = rng.random() < 0.3
+        data = tabulate(rng, data, n_)
         param = []
         if rng.random() < 0.3:
             param = [["D", [js(cc.dy(rng))]]]
@@ -1668,7 +1721,7 @@ def lines_don(case, res):
         fso = "1 " + tok_space(case["fout"]) + " " + fn_tok(case["fn"]) if sub["use_f"] else "0"
         lines.append(" ".join(["don", tok_space(pp["space"]), tok_space(p["space"]), tok_table(pp["rows"]), tok_table(p["rows"]),
                                net_tok(net), fso, resid_ufun_tok(sub),
-                               lst(sub["data"], lambda d: d["name"] + " " + fn_tok(d)), pre,
+                               lst(sub["data"], data_tok), pre,
                                tok_named([(n, [F(v) for v in vs]) for n, vs in sub["param"]]), "0"]))
     return lines
 
@@ -1765,7 +1818,7 @@ def judge_don(rep, case, res, replies):
             exp[nm] = [[pe_frac(b, e) for b in body[kk:kk + d]] for e in envs]
             kk += d
         for d in sub["data"]:
-            exp[d["name"]] = [eval_fn_spec(d, e) for e in envs]
+            exp[d["name"]] = data_expected(d, envs)
         if sub["use_f"]:
             exp["f"] = [eval_fn_spec(case["fn"], e) for e in envs]
         for nm, vs in sub["param"]:
